@@ -346,20 +346,21 @@ NAMES = ["a", "b", "c", "a", "owner", "amount", "x1", "default", "root", "int_0"
 
 
 @st.composite
-def decorate(draw, t, field_ok=False, p_field=0.45, p_type=0.12, names=None):
+def decorate(draw, t, field_ok=False, p_field=0.45, p_type=0.12, names=None, bare=0.08):
     """Adds %field annotations where Tezos allows them (pair / or components and the root) and :type annotations
     anywhere. Returns the annotated type expression (values are unaffected)."""
     names = names or NAMES
     out = {"prim": t["prim"]}
     annots = []
+    # `bare`: share of annotations that are the bare sigil (`%`, `:` = explicitly no name; legal in Michelson)
     if field_ok and draw(st.floats(0, 1)) < p_field:
-        annots.append("%" + draw(st.sampled_from(names)))
+        annots.append("%" + ("" if draw(st.floats(0, 1)) < bare else draw(st.sampled_from(names))))
     if draw(st.floats(0, 1)) < p_type:
-        annots.append(":" + draw(st.sampled_from(names)))
+        annots.append(":" + ("" if draw(st.floats(0, 1)) < bare else draw(st.sampled_from(names))))
     args = rv.targs(t)
     if args:
         child_field = t["prim"] in ("pair", "or")
-        out["args"] = [draw(decorate(a, child_field, p_field, p_type, names)) for a in args]
+        out["args"] = [draw(decorate(a, child_field, p_field, p_type, names, bare)) for a in args]
     if annots:
         out["annots"] = annots
     return out
